@@ -232,8 +232,11 @@ def run_check(pid, tier, seed, table, no_proofs=False):
           "assumptions": table.assumptions(pid), "wall_s": round(time.time() - t0, 2), "violations": nviol}
     evdir = os.environ.get("OSV_EVIDENCE_DIR") or os.path.join(VERIF, "evidence")
     os.makedirs(evdir, exist_ok=True)
-    with open(os.path.join(evdir, pid + ".json"), "w") as f:
-        json.dump(ev, f, indent=1, default=str)
+    # --no-proofs is a development switch (the proof step is skipped, so the record would claim 0 obligations at level
+    # "proof"): such a run never overwrites the evidence of a full run in the default directory
+    if not (no_proofs and not os.environ.get("OSV_EVIDENCE_DIR")):
+        with open(os.path.join(evdir, pid + ".json"), "w") as f:
+            json.dump(ev, f, indent=1, default=str)
     for ln in lines:
         print(ln)
     print("%s %s: theorems %d/%d, correspondence %d cases (%d disagree, max %d ulp), monitor %d evaluations (%d fail), %.1fs" % (
